@@ -45,6 +45,7 @@ let () =
           run_submit_dedup sha (ep = "prechain") (n_of_int (int_of_string bodylen)) (json = "ok") (hexlist raws)
             (vchain_of vchain) (opt_hex tbsnone) (opt_hex tbspre) (z_of_string now) (n_of_int (wait_of wait))
             (hexlist earlier)
+        | "cachekey", [pre; cert; ikh] -> run_cachekey sha (b01 pre) (unhex cert) (unhex ikh)
         | "upissuers", [issuers; known; stored; fetchok; uploadok] ->
           run_upissuers sha (zip5 (split_on ',' issuers) (split_on ',' known) (split_on ',' stored)
                                (split_on ',' fetchok) (split_on ',' uploadok))
